@@ -142,27 +142,27 @@ func (g *gateCloud) GetClientPortMappings(clientID int64) ([]*models.PortMapping
 
 type pworld struct {
 	base
-	tag      string
-	nodes    map[int]*srvkit.Server
-	tun      *srvkit.Tunnels
-	hub      *hub
-	creds    map[string]*cred
-	conns    map[int]*xconn
-	cur      map[string]int // current control connection per client
-	nconn    int
-	ver      map[string]int // mappings created per client
-	scanMu   sync.Mutex
-	wires    []pwire
-	npush    atomic.Int32
-	busy     bool // free-running scene with concurrent changes: a handshake may see a mapping that is being created
-	free     bool
-	hooks    bool
-	rng      *rand.Rand
-	rngMu    sync.Mutex
-	cancel   context.CancelFunc
-	xwSeq    int
-	spawned  atomic.Int32 // writer goroutines that reached the yield point
-	pushes   []*ppush
+	tag     string
+	nodes   map[int]*srvkit.Server
+	tun     *srvkit.Tunnels
+	hub     *hub
+	creds   map[string]*cred
+	conns   map[int]*xconn
+	cur     map[string]int // current control connection per client
+	nconn   int
+	ver     map[string]int // mappings created per client
+	scanMu  sync.Mutex
+	wires   []pwire
+	npush   atomic.Int32
+	busy    bool // free-running scene with concurrent changes: a handshake may see a mapping that is being created
+	free    bool
+	hooks   bool
+	rng     *rand.Rand
+	rngMu   sync.Mutex
+	cancel  context.CancelFunc
+	xwSeq   int
+	spawned atomic.Int32 // writer goroutines that reached the yield point
+	pushes  []*ppush
 }
 
 type pwire struct {
@@ -500,11 +500,11 @@ func (w *pworld) push(p int, x string, node int) any {
 	return nil
 }
 
-func (w *pworld) pcall(p int, x string) {
+func (w *pworld) pcall(p int, x string, node int) {
 	w.mu.Lock()
 	w.pushes = append(w.pushes, &ppush{p: p, x: x, vlo: w.ver[x], cur: w.cur[x], stable: true, called: time.Now()})
 	w.mu.Unlock()
-	w.log(fw.Event{"ev": "PCall", "p": p, "x": x})
+	w.log(fw.Event{"ev": "PCall", "p": p, "x": x, "nd": node})
 }
 
 // owed: a push that returned while the client kept one untouched control connection has not arrived yet
@@ -566,6 +566,35 @@ func (w *pworld) quiet() {
 	w.log(fw.Event{"ev": "Quiet"})
 }
 
+func (w *pworld) diag() string {
+	var b strings.Builder
+	for n := 1; n <= 2; n++ {
+		for _, x := range []string{"A", "B"} {
+			cc := w.nodes[n].SM.GetControlConnectionByClientID(w.creds[x].id)
+			fmt.Fprintf(&b, " node%d/%s=%v", n, x, cc != nil)
+		}
+	}
+	if w.hub != nil {
+		w.hub.mu.Lock()
+		for n, ch := range w.hub.chans {
+			fmt.Fprintf(&b, " q%d=%d/%d", n, len(w.hub.queue[n]), len(ch))
+		}
+		w.hub.mu.Unlock()
+	}
+	for _, p := range w.s.Procs() {
+		st, at := w.s.State(p)
+		fmt.Fprintf(&b, " %s:%s@%s", p, st, at.Point)
+	}
+	w.mu.Lock()
+	for n, c := range w.conns {
+		fmt.Fprintf(&b, " c%d:closed=%v", n, c.tr.isClosed())
+	}
+	w.mu.Unlock()
+	st := allStacks()
+	fmt.Fprintf(&b, " writers=%d loops=%d", strings.Count(st, "handleConfigPushBroadcast.func"), strings.Count(st, "processConfigPushBroadcasts"))
+	return b.String()
+}
+
 // needsHook: the behaviour writes a pending cross-node push before an older one of the same node
 func needsHook(b *behaviour) bool {
 	pend := map[int][]int{}
@@ -622,7 +651,7 @@ loop:
 			name := fmt.Sprintf("p%d.%d", st.P, st.N)
 			procOf[st.P] = name
 			p := st.N
-			w.pcall(p, x)
+			w.pcall(p, x, 1)
 			w.s.Start(name, func() any { return w.push(p, x, 1) })
 			if got := w.waitProc(name, settleMax); got != "parked" {
 				diverge("step %d: pusher is %s after its look-up", i, got)
@@ -700,6 +729,10 @@ loop:
 	}
 	w.s.Drain(finalMax)
 	w.quiet()
+	if w.owed() {
+		// the judge is going to ask for this delivery: say what the world looks like
+		note += " | undelivered push:" + w.diag()
+	}
 	return &fw.Trace{Status: status, Note: note, Events: w.snapshot()}
 }
 
@@ -721,7 +754,7 @@ func setup() {
 		fmt.Printf("INCONCLUSIVE: probe login: %v\n", err)
 		os.Exit(2)
 	}
-	w.pcall(1, "A")
+	w.pcall(1, "A", 1)
 	w.push(1, "A", 1)
 	w.quiet()
 	if w.wireCount(w.cur["A"]) == 0 {
